@@ -118,5 +118,7 @@ package options
 
 //@ func (*LegacyOptions).ToOptions
 //@ prop C07 C17
-//@ ensures[converted-lists-become-the-injection-options] ret1 == nil ==> ret0 == &l.Options && ret0.InjectRequestHeaders == ret0(convert#1)
-//@     && ret0.InjectResponseHeaders == ret1(convert#1) && ret0.UpstreamServers == ret0(convert#0)
+//@ at call convert#2 assert[converted-lists-become-the-injection-options] l.Options.InjectRequestHeaders == ret0(convert#1)
+//@     && l.Options.InjectResponseHeaders == ret1(convert#1) && ret1(convert#0) == nil
+//@ at call convert#1 assert[headers-converted-from-the-legacy-header-flags] recv(convert#1) == &l.LegacyHeaders && l.Options.UpstreamServers == ret0(convert#0)
+//@ ensures[the-options-being-filled-are-returned] ret1 == nil ==> ret0 == &l.Options
